@@ -29,10 +29,18 @@ CLAIMED = {
          "Proof: 17 theorems — the assigned bin is the unique i with lo+i*w <= x < lo+(i+1)*w, bin centre lies in its bin, index_ok characterisation, address range/injectivity/surjectivity, incr enumerates every address exactly once in order, periodic wrap, sizes from boundaries, and for every history the total count equals the number of eligible in-range samples and each bin holds the samples that address it. Tied to the code on generated grids (edges, outside, 1-3 D) and on real histogram biases driven by injected value histories incl. run boundaries and custom grid blocks.",
          "Model hand-written (CvModel/Grid.lean). Partial: grid-file round trips (multicolumn/restart/raw) are not modelled yet; gatherVectorColvars cannot be configured at the pinned commit (histogram init enables the scalar-variables requirement unconditionally), so the vector-histogram theorem has no implementation counterpart to compare with. Floating point not modelled.",
          "DESIGN.md §4 C15"),
+ "C17": ("Lean 4 theorems (exact shadow-energy invariant of the integrator, reflection, force routing, repeated-step reversion, time origin, parameter formulas) + differential correspondence with the extended-Lagrangian code path under the engine simulator with a seeded Gaussian source",
+         "Proof: 12 theorems — for every time step, force constant and mass, frictionless integration with a static variable and constant bias force conserves E_kin + E_coupling - f.x - h^2 k^2/(8m) d^2 exactly (no drift; fluctuation second order in h); the coordinate is inside its reflecting boundaries unless the code raises its own error; atoms feel only the coupling spring (times the factor) plus bypassing biases while biases act on the extended coordinate; a repeated step restores the reported coordinate/velocity and re-executing it is idempotent; reported value/velocity are those left by the previous integration; k and m from fluctuation and time constant give period tau. Tied to the code by comparing value, velocity, both energies, bias force, atom force and next state at every step (friction 0 and non-zero, reflections, harmonic + bypassing walls biases, repeated steps, save/load).",
+         "Model hand-written (CvModel/ExtLag.lean); one scalar non-periodic variable, own time-step factor 1, driven external parameters (alchemical) not modelled. The engine simulator's Gaussian source (SplitMix64 + Box-Muller) is re-implemented in the driver. Floating point not modelled (comparison at 1e-9).",
+         "DESIGN.md §4 C17"),
  "C18": ("Lean 4 theorems over the reals about a hand-written model of the value metric + differential correspondence with colvarvalue/colvar::dist2/wrap",
          "Proof: 29 theorems (non-negativity, symmetry incl. the half-period tie, zero iff equivalent, period / quaternion-sign invariance, gradient = derivative via HasDerivAt, wrap range/equivalence/idempotence, interpolation end points and manifold) hold for all real inputs of the model; the model is tied to the C++ by running both on generated and edge-case pairs every run.",
          "Model hand-written (CvModel/Value.lean), not extracted; floating point not modelled (theorems over R, comparison at 1e-9 relative); quaternion PI constant instantiated with Real.pi in theorems; periodic variables exercised through distanceZ with period/wrapAround.",
          "DESIGN.md §4 C18"),
+ "C20": ("Lean 4 theorems about the dispatch model over a command table regenerated from the source by a translator on every run (plus decide-obligations on that table) + differential correspondence of outcome classes + query-vs-engine oracle",
+         "Proof: 11 theorems — the dispatcher is total; a command body runs only with min <= nargs <= max and nargs equals the words after the command words, so every guarded argument access is in range; unknown module commands, commands on missing objects and wrong arities are errors that never reach a body; the regenerated table has distinct names, min <= max and reachable prefixes (re-decided whenever colvarscript_commands*.h changes). The translator's output is cross-checked against the table of the running library. Sequences of well-formed and malformed commands (all 86 commands, wrong arity, empty/huge/non-numeric arguments, missing objects) interleaved with steps, deletions and additions are run through run_colvarscript_command and the outcome class compared with the model; values, gradients, applied forces, atom forces, atom ids and energy returned by queries are compared with the engine-side arrays of the same step.",
+         "Partial: the 86 command bodies are not modelled (their numbers are checked by the oracle only; memory safety of bodies is evidence from sampled runs). Outcome classes of rejected calls are read from the dispatcher's messages. cv getenergy prints 6 significant digits; compared at that precision.",
+         "DESIGN.md §4 C20"),
 }
 
 PENDING_REASON = "check not built yet in this round (model/theorems/correspondence under construction; see DESIGN.md §4)"
